@@ -27,7 +27,7 @@ PROP = 'C08'
 MANIFEST = {
     'engine': 'E4-model + E2-storage',
     'level': 'fault_enumeration',
-    'technique': 'Hypothesis op-sequence generation vs list model + enumerated real kill points (fork/_exit)',
+    'technique': 'Hypothesis op-sequence generation vs list model + enumerated kill points at every primitive storage write (in-process, every 6th cross-validated by a real fork/_exit)',
     'text': 'Model-based: generated journal op sequences are compared with a Python list after every op and after reopen. '
             'Fault enumeration: for flagged ops every primitive storage write (and a torn record store) is a real process-kill point; the reopened file must be an allowed outcome. '
             'Right level because the property quantifies over op sequences x crash points, both enumerable at this granularity.',
